@@ -362,9 +362,10 @@ Definition client_op (o : op) : bool := match o with OServerSet _ _ _ => false |
 Definition run (st : store) (ops : list op) : store * list outcome :=
   fold_left (fun acc o => let '(s1, r) := step (fst acc) o in (s1, snd acc ++ [r])) ops (st, []).
 
-(* the session works: its time zone parses and its character sets exist *)
+(* the session works: its time zone parses, its character sets exist, and the one its client declared can carry the
+   protocol's NUL-terminated strings *)
 Definition operational (st : store) : bool :=
   match vget st n_time_zone with Ok (VStr s) => match parse_tz s with Some _ => true | None => false end | _ => false end &&
-  match vget st n_cs_client with Ok (VStr s) => existsb (str_eqb s) usable_charsets | _ => false end &&
+  match vget st n_cs_client with Ok (VStr s) => existsb (str_eqb s) usable_charsets && negb (existsb (str_eqb s) not_for_clients) | _ => false end &&
   match vget st n_cs_results with Ok (VStr s) => existsb (str_eqb s) usable_charsets | _ => false end.
 End Vars.
